@@ -679,6 +679,15 @@ def extra_cases():
     c.append(('announce ipv6 mup mup-isd 2001::/129 rd 100:100 next-hop 2001::2', False, None))
     c.append(('announce flow route { match { source 10.4.4.4/32; destination 2001:db8::/64; } then { discard; } }', False, None))
     c.append(('announce flow route { match { destination 2001:db8::/64; source 10.4.4.4/32; } then { discard; } }', False, None))
+    # flow: the family of the command, of the prefixes and of the components agree, whatever the order of the words;
+    # flow-vpn has a route distinguisher and plain flow has none; RFC 8956 3.1: offset < length
+    FB = 'announce flow route { match { %s } then { discard; } }'
+    for words in ('flow-label 5; destination 10.0.0.0/8;', 'destination 10.0.0.0/8; flow-label 5;', 'next-header tcp; destination 10.0.0.0/8;', 'destination 10.0.0.0/8; next-header tcp;', 'protocol tcp; destination 2001:db8::/32;', 'destination 2001:db8::/32; protocol tcp;', 'flow-label 5;', 'destination 2001:db8::/32/64;', 'source 2001:db8::/32/32;'):
+        c.append((FB % words, False, None))
+    for words in ('destination 2001:db8::/32; flow-label 5;', 'flow-label 5; destination 2001:db8::/32;', 'protocol tcp; destination 10.0.0.0/8;', 'destination 2001:db8::/64/32;', 'destination ::/0/0;'):
+        c.append((FB % words, True, None))
+    for text, ok in (('announce ipv4 flow-vpn destination 10.0.0.0/8 discard', False), ('announce ipv4 flow rd 65000:1 destination 10.0.0.0/8 discard', False), ('announce ipv4 flow-vpn rd 65000:1 destination 10.0.0.0/8 discard', True), ('announce ipv4 flow destination 10.0.0.0/8 discard', True), ('announce ipv4 flow destination 2001:db8::/32 discard', False), ('announce ipv6 flow destination 10.0.0.0/8 discard', False), ('announce ipv6 flow next-header tcp destination 10.0.0.0/8 discard', False), ('announce ipv6 flow next-header tcp destination 2001:db8::/32 discard', True), ('announce ipv4 flow protocol tcp destination 10.0.0.0/8 discard', True), ('announce ipv4 flow flow-label 5 destination 10.0.0.0/8 discard', False)):
+        c.append((text, ok, None))
     c.append(('announce ipv4 multicast 224.0.0.0/24 next-hop 192.0.2.1', True, None))
     c.append(('announce ipv6 multicast ff0e::/64 next-hop 2001:db8::1', True, None))
     c.append(('announce vpls rd 65000:1 endpoint 5 base 10702 offset 1 size 8 next-hop self', None, None))
